@@ -390,6 +390,11 @@ func c14History(c *Ctx, idx int) {
 					ex.must[cc] = true
 				}
 			}
+			ctlBefore := map[int]bool{}
+			for _, x := range bed.Cluster.EstablishedControlConns() {
+				ctlBefore[x.ID] = true
+			}
+			burstFirst := evSeq + 1
 			var wg sync.WaitGroup
 			nChurn := rng.Intn(3)
 			var churners []*c14Client
@@ -455,6 +460,20 @@ func c14History(c *Ctx, idx int) {
 				}
 			}
 			wg.Wait()
+			// premise of the burst: its events were written to control connections that stayed the proxy's control connections
+			// (an event written to a connection the proxy has just given up - nobody asked it to here - reaches nobody)
+			same := true
+			for _, x := range bed.Cluster.EstablishedControlConns() {
+				if !ctlBefore[x.ID] {
+					same = false
+				}
+			}
+			if !same || len(bed.Cluster.EstablishedControlConns()) < len(ctlBefore) {
+				for q := burstFirst; q <= evSeq; q++ {
+					delete(expect, fmt.Sprintf("%d_%d", idx, q))
+				}
+				r.Obs("bursts_voided_by_a_control_reconnect_nobody_asked_for", 1)
+			}
 			if !barrier() {
 				return
 			}
